@@ -223,7 +223,9 @@ def big_pairs(run, n, owner):
             nt, nn = r.choice([3, 40, 64, 65, 120]), r.choice([3, 40, 64, 65, 120])
             pool = list(range(1, 151))
             tk = r.sample(pool, nt)
-            nk_ = (r.sample(tk, min(len(tk), nn // 2)) + r.sample([k for k in pool if k not in tk], nn - min(len(tk), nn // 2)))
+            rest = [k for k in pool if k not in tk]
+            keep = min(len(tk), max(nn // 2, nn - len(rest)))          # how many of the old keys stay (enough for the rest of the pool to fill up)
+            nk_ = r.sample(tk, keep) + r.sample(rest, nn - keep)
             tt, tn = r.choice([1, nt // 2 + 1, nt]), r.choice([1, nn // 2 + 1, nn])
             tv = r.choice([1, 7, 2 ** 40])
             tdoc = metadata.delegating_doc("root", tv, {"root": metadata.rule([keys.pub[k] for k in tk], tt), "key_mgr": metadata.rule([keys.pub[1]], 1)}, r)
